@@ -291,7 +291,7 @@ CHECKS = {
         technique="Lean 4 refinement of the window sort to a stable sort + byte-exact differential runs of ovnisort",
         design="DESIGN.md §5 C16"),
     "C17": dict(
-        text=("Theorems (Props/C17.lean, 17): the runtime refuses ovni_mark_type / ovni_mark_label exactly for a type outside "
+        text=("Theorems (Props/C17.lean, 37): the runtime refuses ovni_mark_type / ovni_mark_label exactly for a type outside "
               "[0,100), empty title/label, redefinition, value <= 0, undefined type or relabelled value "
               "(markType_refused_iff, markLabel_refused_iff), push/pop/set refuse value 0; the emulator's merge refuses a "
               "definition whose title or channel type disagrees with the table, a different label for a labelled value, and "
@@ -300,14 +300,18 @@ CHECKS = {
               "undefined type, zero value, push on single / set on stack, mismatched pop (mark_event_guards, "
               "wrong_op_refused, mismatched_pop_refused via C08); every mark type is a channel with Paraver type 100+type "
               "shown on the thread row while the thread is active and on the CPU row of the unique running thread "
-              "(mark_channel_spec, mark_thread_view, mark_cpu_view). Order independence of the merge is shown on concrete "
-              "instances only (examples), not as a general theorem. Tie: (A) real libovni (ASan/UBSan harness) vs the Lean "
+              "(mark_channel_spec, mark_thread_view, mark_cpu_view). The merge over any number of threads and definitions is "
+              "accepted iff every definition is well formed and every two agree (merge_ok_iff, merge_refused_iff), the table is "
+              "exactly the union with one label per value (merge_content), and verdict and table are invariant under any "
+              "permutation of threads or definitions, or moving definitions between threads (merge_perm_invariant, "
+              "mergeMarks_perm_threads/_perm_inside/_move_def); metadata reachable through the runtime API is always "
+              "accepted on its own and several threads iff they agree pairwise (runtime_meta_parses, "
+              "runtime_metas_merge_iff). Tie: (A) real libovni (ASan/UBSan harness) vs the Lean "
               "runtime model on random mark programs: abort/return and the ovni.mark metadata written; (B) independent "
               "Python-written traces with per-thread definitions and single conflicts, mark events interleaved with state "
               "changes: real ovniemu -l vs the Lean reference emulator (verdict, failing event, rows 100..199, PCF titles "
               "and labels) and vs an independent oracle. Known finding: label values beyond C int (see KNOWN_FINDINGS.txt)."),
-        note=TB + "; JSON decoding of the metadata (parson) is outside the model; the general permutation-invariance of the merge "
-             "is covered by the correspondence (threads defined in random orders), not by a theorem",
+        note=TB + "; JSON decoding of the metadata (parson) is outside the model",
         technique="Lean 4 guard/merge theorems over transcriptions of the mark API and mark.c + differential runs of libovni and ovniemu",
         design="DESIGN.md §5 C17"),
     "C18": dict(
